@@ -32,7 +32,7 @@ VERIF = core.VERIF
 N = ec.N
 M256 = (1 << 256) - 1
 BUILDS = ["prod", "noasm", "struct", "int64"]      # int128+asm (shipped flags), int128 without asm, int128_struct, int64
-LISTS = {"quick": 12, "thorough": 200}
+LISTS = {"quick": 32, "thorough": 200}
 MAX_SHRINK_RUNS = 16                               # valgrind runs spent on shrinking one failure (bounded effort, not an oracle)
 
 RULE = ("cases: lists of 20-60 API invocations drawn from the maintainers' constant-time list (src/ctime_tests.c) x public parameters "
